@@ -155,13 +155,13 @@ def lines_parallel(la, lb, lc, ld, d=None):
     if x1 == 0:
         if y1 == 0:
             return False
-        s1 = 0
+        s1 = math.pi / 2
     else:
         s1 = math.atan(abs(y1 / x1))
     x2 = lc[0] - ld[0]
     y2 = lc[1] - ld[1]
     if x2 == 0:
-        s2 = 0
+        s2 = math.pi / 2
         if y2 == 0:
             return False
     else:
